@@ -9,6 +9,7 @@ Oracle (independent of the Lean model): (a) the run with the options equals – 
 stdout and output files – the run with every option's value written into the configuration file;
 (b) the witnesses of the run are those of the *documented* overlay (python `spec_effective`).
 """
+import atexit
 import copy
 import datetime
 import hashlib
@@ -187,6 +188,7 @@ class World:
         self.cwd = os.path.join(root, "cwd")
         self.shas = json.load(open(os.path.join(root, "shas.json")))
         self.run_dir = tempfile.mkdtemp(prefix="c19-run-%d-" % os.getpid(), dir=base)
+        atexit.register(shutil.rmtree, self.run_dir, True)
         self.counter = itertools.count(1)
         # tables
         self.file_units = {os.path.join(root, rel): k for k, rel, _ in UNITS}
